@@ -26,6 +26,24 @@ CLASSES = ["len_mismatch", "bad_shape", "small_n", "bad_ref_rule", "bad_target_r
            "trunci_bounds", "slice_absent", "slicei_bounds", "grid_ends", "grid_ref_ends", "dataset"]
 
 
+def harvested_methods():
+    """names that exist in the library's own namespace (functions and helpers of traffic_weaver.process, with and without
+    their prefixes / suffixes) but are not documented interpolation methods: a name table built by reflection accepts them"""
+    from ..core import repo_on_path
+    repo_on_path()
+    import traffic_weaver.process as proc
+    out = set()
+    for name in dir(proc):
+        if name.startswith("__"):
+            continue
+        base = name.strip("_")
+        out.add(base)
+        for affix in ("_interpolate", "interpolate_", "_interpolation", "interpolate"):
+            if affix in base:
+                out.add(base.replace(affix, "").strip("_"))
+    return sorted(n for n in out if n and n not in ("linear", "constant", "cubic", "spline"))
+
+
 def history(rng):
     ops = []
     for _ in range(rng.randint(0, 5)):
@@ -76,7 +94,7 @@ def gen(rng):
         c["ops"].append({"op": "match", "target": "trapezoid", "ref": "rectangle", "alpha": 1,
                          "strategy": rng.choice(["nearest", "floor", "Closest"]), "force": True})
     elif cls == "bad_method":
-        op = {"op": "interp", "method": rng.choice(["quadratic", "nearest", "Linear"]), "force": True}
+        op = {"op": "interp", "method": rng.choice(["quadratic", "nearest", "Linear"] + harvested_methods()), "force": True}
         if rng.random() < 0.5:
             op["n"] = rng.randint(2, 9)
         else:
@@ -147,6 +165,12 @@ def gen(rng):
 
 def cases(rng, tier):
     n_ = {"quick": 400, "thorough": 4000}.get(tier, 250)
+    # every name of the library's own namespace that is not a documented method, once
+    for name in harvested_methods():
+        c = W.gen_init(rng, 5, 10)
+        c.update({"x_none": False, "cls": "bad_method", "queries": [], "ops": history(rng)[:2]})
+        c["ops"].append({"op": "interp", "method": name, "force": True, **({"n": rng.randint(2, 9)} if rng.random() < 0.5 else {"grid": ["1/2"]})})
+        yield c
     for _ in range(n_):
         yield gen(rng)
 
